@@ -8,14 +8,14 @@
    and only schema-PERMITTED ones: required slots are always populated (except the slot of the child being added), an
    exclusive (non-repeatable choice) slot contributes exactly one alternative - each in turn (rotation j).
    Next applies every generated method of every declaration of the class (Impl layer).  "Insert after insert" (DEPTH 2):
-   the states one Impl step away from a context are initial states too (lvl = 1; a state that is also a context keeps
-   lvl = 0), so every state is expanded exactly once whatever the worker interleaving - the set of transitions is
-   deterministic.  To lvl-1 states the operations L2OPS are applied, for element types of at most L2MAXSLOTS slots.
+   a state one Impl step away from a context is expanded too (operations L2OPS, element types of at most L2MAXSLOTS
+   slots); its successors all collapse into one Sink state, so that (VIEW = st) the states expanded are exactly the
+   contexts and their successors, each once, whatever the worker interleaving - the set of transitions is deterministic.
    TLC evaluates the property layer on every Impl transition; nothing stops at the first counterexample: each is printed
    as a CEX record and every transition is printed as a TR tuple, to be replayed on the real element.               *)
 EXTENDS ChildOrder, Json, IOUtils, SequencesExt, FiniteSetsExt, TLC
 CONSTANTS DEPTH, SUBSETS, MAXSLOTS, L2OPS, L2MAXSLOTS
-VARIABLES st, lvl, depth
+VARIABLES st, depth
 
 Cfg == JsonDeserialize(IOEnv.CASES_FILE)
 Cases == Cfg.cases
@@ -59,18 +59,11 @@ FamSubsets(c, k) ==    \* every schema-permitted subset of the slots
 
 Contexts(c) == FamDup(c) \cup UNION {FamSets(c, k) \cup FamOne(c, k) \cup FamPairs(c, k) \cup FamSubsets(c, k) : k \in OwnSlots(c)}
 
-OpNames == {"Insert", "Add", "PublicAdd", "GetOrAdd", "RemoveAll", "ChangeTo"}
-\* the states one Impl step away from a context
-L1(c, ctx) == IF DEPTH < 2 THEN {}
-              ELSE UNION {{ImplStep(kids, a[1], c.decls[a[2]]) :
-                             a \in {b \in OpNames \X DOMAIN c.decls : InSeq(c.decls[b[2]].ops, b[1]) /\ OpEnabled(c, c.decls[b[2]], kids, b[1])}}
-                          : kids \in ctx}
+\* constant-level table (TLC evaluates a constant definition once)
+CtxOf == [k \in DOMAIN Cases |-> Contexts(Cases[k])]
 Init == /\ depth = 0
-        /\ \E k \in DOMAIN Cases :
-              LET c == Cases[k]
-                  ctx == Contexts(c)
-              IN \E kids \in ctx \cup L1(c, ctx) : /\ st = [cls |-> k, kids |-> kids]
-                                                    /\ lvl = IF kids \in ctx THEN 0 ELSE 1
+        /\ \E k \in DOMAIN Cases : \E kids \in CtxOf[k] : st = [cls |-> k, kids |-> kids]
+Sink == [cls |-> 0, kids |-> <<>>]
 
 Step(op, x) ==
   LET c == Cases[st.cls]
@@ -78,18 +71,17 @@ Step(op, x) ==
       t == ImplStep(st.kids, op, d)
       jd == OrderedJudged(c, d, st.kids, op)
       f == FailingJ(c, d, st.kids, op, t, jd)
-  IN /\ depth = 0                                            \* every initial state is expanded once; successors are not
-     /\ (lvl = 0 \/ (op \in L2OPS /\ N(c) <= L2MAXSLOTS))     \* "insert after insert": what is applied to a state reached by one
+  IN /\ st # Sink /\ depth < DEPTH
+     /\ (depth = 0 \/ (op \in L2OPS /\ N(c) <= L2MAXSLOTS))   \* "insert after insert": what is applied to a state reached by one
      /\ InSeq(d.ops, op)
      /\ OpEnabled(c, d, st.kids, op)
-     /\ st' = [st EXCEPT !.kids = t]
-     /\ depth' = 1
-     /\ lvl' = lvl
+     /\ st' = IF depth = 0 THEN [st EXCEPT !.kids = t] ELSE Sink
+     /\ depth' = depth + 1
      /\ PrintT(<<"TR", ToJson(<<st.cls, x, op, st.kids, t, SetToSeq(f), jd>>)>>)
      /\ (f # {}) => PrintT(<<"CEX", ToJson([tag |-> c.tag, cls |-> c.cls, xtype |-> c.xtype, child |-> d.child, op |-> op,
                                              successors |-> d.succ, context |-> st.kids, result |-> t, failing |-> SetToSeq(f)])>>)
 
-Decls == DOMAIN Cases[st.cls].decls
+Decls == IF st = Sink THEN {} ELSE DOMAIN Cases[st.cls].decls
 DoInsert    == \E x \in Decls : Step("Insert", x)
 DoAdd       == \E x \in Decls : Step("Add", x)
 DoPublicAdd == \E x \in Decls : Step("PublicAdd", x)
@@ -97,17 +89,17 @@ DoGetOrAdd  == \E x \in Decls : Step("GetOrAdd", x)
 DoRemoveAll == \E x \in Decls : Step("RemoveAll", x)
 DoChangeTo  == \E x \in Decls : Step("ChangeTo", x)
 Next == DoInsert \/ DoAdd \/ DoPublicAdd \/ DoGetOrAdd \/ DoRemoveAll \/ DoChangeTo
-Spec == Init /\ [][Next]_<<st, lvl, depth>>
+Spec == Init /\ [][Next]_<<st, depth>>
 ViewSt == st
 
 \* sanity of the extracted constants and of the context builder: every initial context is schema-permitted for the
 \* child whose family it belongs to, or is a duplicate context (checked as an invariant on depth-0 states)
-TypeOK == /\ st.cls \in DOMAIN Cases
-          /\ depth \in 0..1 /\ lvl \in 0..1
-InitPermitted == (depth = 0 /\ lvl = 0) => LET c == Cases[st.cls]
+TypeOK == /\ st = Sink \/ st.cls \in DOMAIN Cases
+          /\ depth \in 0..DEPTH
+InitPermitted == depth = 0 => LET c == Cases[st.cls]
                               IN \/ \E x \in DOMAIN c.decls : PermittedFor(c, st.kids, c.decls[x].child)
                                  \/ st.kids \in FamDup(c)
 
 ASSUME PrintT(<<"NCASES", ToJson([cases |-> Len(Cases), decls |-> FoldLeft(LAMBDA a, c : a + Len(c.decls), 0, Cases),
-                                  contexts |-> FoldLeft(LAMBDA a, c : a + Cardinality(Contexts(c)), 0, Cases)])>>)
+                                  contexts |-> FoldLeft(LAMBDA a, k : a + Cardinality(CtxOf[k]), 0, [k \in DOMAIN Cases |-> k])])>>)
 =============================================================================
